@@ -10,7 +10,8 @@ C. `recover_genuine`: from ANY `d` distinct packets of a genuine group the recov
 D. `decode_completes` / `decode_incomplete` / `decode_duplicate`: one `decode` call
 E. the invariant `SetsGenuine`, kept by `decode` of any genuine packet (`decode_preserves`),
    under which every returned shard is an original body (`decode_sound`, `dec_sound_list`,
-   `dec_sound_new`); genuine packets never start tuning (`decode_stable`, `stable_list`)
+   `dec_sound_new`); genuine packets never start tuning (`decode_stable`, `stable_list`);
+   a fresh decoder recovers a group anywhere in the id space (`fresh_decoder_anywhere`, D13)
 -/
 import KcpVerif.Lemmas.FecSpec
 
@@ -501,15 +502,16 @@ structure Matches (C : CodecNew) (G : Group) (dec : Decoder) : Prop where
 def place (dec1 : Decoder) (inp : Bytes) : DecOut :=
   let seq := seqid inp
   let shardId := seq / u32 dec1.n
+  let base := if dec1.sets.isEmpty then shardId else dec1.newest
   let set := (lookup shardId dec1.sets).getD { id := shardId, pkts := [] }
-  if set.pkts.any (fun q => seqid q == seq) then { st := dec1, recovered := [] }
+  if set.pkts.any (fun q => seqid q == seq) then { st := { dec1 with newest := base }, recovered := [] }
   else
     let pkts := set.pkts ++ [inp]
     let full := decide (pkts.length ≥ dec1.d)
     let recovered := if full then recover dec1 pkts else []
     let sets := store { id := shardId, pkts := if full then [] else pkts } dec1.sets
     let newest :=
-      if itimediff (shardId * u32 dec1.n) (dec1.newest * u32 dec1.n) > 0 then shardId else dec1.newest
+      if itimediff (shardId * u32 dec1.n) (base * u32 dec1.n) > 0 then shardId else base
     { st := { dec1 with sets := discard dec1.n newest sets, newest := newest }, recovered := recovered }
 
 /-- `dec` after the `Sample` call of `decode` -/
@@ -564,15 +566,59 @@ theorem any_seqid (hG : G.WF) (got : List Nat) (hb : ∀ i ∈ got, i < G.n) (j 
 def held (sid : BitVec 32) (dec : Decoder) : List Bytes :=
   ((lookup sid dec.sets).getD { id := sid, pkts := [] }).pkts
 
+/-- the discard horizon `decode` starts from: this packet's shard id when no shard set exists -/
+def baseOf (sid : BitVec 32) (dec1 : Decoder) : BitVec 32 :=
+  if dec1.sets.isEmpty then sid else dec1.newest
+
+/-- `newestShardId` after `decode` has placed a packet of shard id `sid` (shard size `n`) -/
+def newestOf (n : Nat) (sid : BitVec 32) (dec1 : Decoder) : BitVec 32 :=
+  if itimediff (sid * u32 n) (baseOf sid dec1 * u32 n) > 0 then sid else baseOf sid dec1
+
+theorem sets_nonempty_of_held (sid : BitVec 32) (dec : Decoder) (h : held sid dec ≠ []) :
+    dec.sets.isEmpty = false := by
+  cases hs : dec.sets with
+  | nil => exfalso; apply h; simp [held, hs, lookup]
+  | cons a l => rfl
+
 theorem place_dup (hG : G.WF) (dec1 : Decoder) (hn : dec1.n = G.n) (got : List Nat)
     (hb : ∀ i ∈ got, i < G.n) (hset : held (G.base / u32 G.n) dec1 = got.map (G.packet C))
     (j : Nat) (hj : j < G.n) (hmem : j ∈ got) :
     place dec1 (G.packet C j) = { st := dec1, recovered := [] } := by
+  have hne : dec1.sets.isEmpty = false := by
+    apply sets_nonempty_of_held (G.base / u32 G.n)
+    rw [hset]
+    intro h
+    rw [List.map_eq_nil_iff] at h
+    rw [h] at hmem
+    cases hmem
   unfold held at hset
   unfold place
-  simp only [hn, shardId_packet hG j hj, hset, any_seqid hG got hb j hj, hmem, decide_true, if_true]
+  simp only [hn, shardId_packet hG j hj, hset, any_seqid hG got hb j hj, hmem, decide_true, if_true,
+    hne, Bool.false_eq_true, if_false]
+  rw [← hn]
 
+/-- a new packet of the group: what is returned and the complete successor state -/
 theorem place_new (hG : G.WF) (dec1 : Decoder) (hn : dec1.n = G.n) (got : List Nat)
+    (hb : ∀ i ∈ got, i < G.n) (hset : held (G.base / u32 G.n) dec1 = got.map (G.packet C))
+    (j : Nat) (hj : j < G.n) (hnot : j ∉ got) :
+    (place dec1 (G.packet C j)).recovered
+        = (if got.length + 1 ≥ dec1.d then recover dec1 ((got ++ [j]).map (G.packet C)) else []) ∧
+    (place dec1 (G.packet C j)).panic = false ∧
+    (place dec1 (G.packet C j)).st =
+      { dec1 with
+        sets := discard G.n (newestOf G.n (G.base / u32 G.n) dec1) (store
+          ⟨G.base / u32 G.n, if got.length + 1 ≥ dec1.d then [] else (got ++ [j]).map (G.packet C)⟩
+          dec1.sets),
+        newest := newestOf G.n (G.base / u32 G.n) dec1 } := by
+  unfold held at hset
+  unfold place newestOf baseOf
+  simp only [hn, shardId_packet hG j hj, hset, any_seqid hG got hb j hj, hnot, decide_false,
+    Bool.false_eq_true, if_false, List.length_append, List.length_map, List.length_cons,
+    List.length_nil, Nat.zero_add, decide_eq_true_eq, List.map_append, List.map_cons, List.map_nil]
+  exact ⟨trivial, trivial, trivial⟩
+
+/-- `place_new` without the value of the new `newest` -/
+theorem place_new_ex (hG : G.WF) (dec1 : Decoder) (hn : dec1.n = G.n) (got : List Nat)
     (hb : ∀ i ∈ got, i < G.n) (hset : held (G.base / u32 G.n) dec1 = got.map (G.packet C))
     (j : Nat) (hj : j < G.n) (hnot : j ∉ got) :
     (place dec1 (G.packet C j)).recovered
@@ -584,12 +630,8 @@ theorem place_new (hG : G.WF) (dec1 : Decoder) (hn : dec1.n = G.n) (got : List N
           ⟨G.base / u32 G.n, if got.length + 1 ≥ dec1.d then [] else (got ++ [j]).map (G.packet C)⟩
           dec1.sets),
         newest := nw } := by
-  unfold held at hset
-  unfold place
-  simp only [hn, shardId_packet hG j hj, hset, any_seqid hG got hb j hj, hnot, decide_false,
-    Bool.false_eq_true, if_false, List.length_append, List.length_map, List.length_cons,
-    List.length_nil, Nat.zero_add, decide_eq_true_eq, List.map_append, List.map_cons, List.map_nil]
-  exact ⟨trivial, trivial, _, rfl⟩
+  obtain ⟨h1, h2, h3⟩ := place_new hG dec1 hn got hb hset j hj hnot
+  exact ⟨h1, h2, _, h3⟩
 
 theorem pairwise_snoc (got : List Nat) (hnd : got.Pairwise (· ≠ ·)) (j : Nat) (hnot : j ∉ got) :
     (got ++ [j]).Pairwise (· ≠ ·) := by
@@ -863,7 +905,7 @@ theorem decode_preserves (grp : Family) (dec : Decoder) (hS : Steady C dec)
   obtain ⟨got, hnd, hb, hlt, hset⟩ := held_genuine grp _ hI' hG hgrp
   by_cases hmem : j ∈ got
   · rw [place_dup hG _ hM'.n got hb hset j hj hmem]; exact hI'
-  · obtain ⟨_, _, nw, hst⟩ := place_new hG _ hM'.n got hb hset j hj hmem
+  · obtain ⟨_, _, nw, hst⟩ := place_new_ex hG _ hM'.n got hb hset j hj hmem
     rw [hst]
     constructor
     · intro s hs
@@ -1026,6 +1068,146 @@ theorem feed_fst (dec : Decoder) (pkts : List Bytes) :
   | nil => rfl
   | cons q rest ih => simp only [List.foldl_cons, feedStep]; exact ih _ _
 
+/-! ### a fresh decoder recovers a group anywhere in the id space (regression for finding D13) -/
+
+theorem lookup_store (id : BitVec 32) (pk : List Bytes) :
+    ∀ (l : List ShardSet), lookup id (store ⟨id, pk⟩ l) = some ⟨id, pk⟩ := by
+  intro l
+  induction l with
+  | nil => simp [store, lookup]
+  | cons t rest ih =>
+    simp only [store]
+    cases ht : (t.id == id) with
+    | true => simp only [if_true, lookup, beq_self_eq_true]
+    | false => simp only [Bool.false_eq_true, if_false, lookup, ht]; exact ih
+
+theorem lookup_filter (id : BitVec 32) (p : ShardSet → Bool) (hp : ∀ s, s.id = id → p s = true) :
+    ∀ (l : List ShardSet), lookup id (l.filter p) = lookup id l := by
+  intro l
+  induction l with
+  | nil => rfl
+  | cons t rest ih =>
+    cases ht : (t.id == id) with
+    | true =>
+      have hpt := hp t (by simpa using ht)
+      simp only [List.filter_cons, hpt, if_true, lookup, ht]
+    | false =>
+      cases hpt : p t with
+      | true => simp only [List.filter_cons, hpt, if_true, lookup, ht, Bool.false_eq_true, if_false]; exact ih
+      | false => simp only [List.filter_cons, hpt, Bool.false_eq_true, if_false, lookup, ht]; exact ih
+
+theorem itimediff_self (x : BitVec 32) : itimediff x x = 0 := by
+  simp [itimediff]
+
+/-- `discardShards` never drops the set of the newest shard id itself -/
+theorem lookup_discard_self (n : Nat) (sid : BitVec 32) (l : List ShardSet) :
+    lookup sid (discard n sid l) = lookup sid l := by
+  unfold Fec.discard
+  apply lookup_filter
+  intro s hs
+  rw [hs, itimediff_self]
+  simp only [Bool.not_eq_true', decide_eq_false_iff_not]
+  omega
+
+/-- a further packet of the group the decoder is anchored at, the set staying incomplete: the
+    set grows by that packet and the decoder stays anchored -/
+theorem decode_anchored_step (hG : G.WF) (dec : Decoder) (hM : Matches C G dec)
+    (got : List Nat) (hb : ∀ i ∈ got, i < G.n)
+    (hset : held (G.base / u32 G.n) dec = got.map (G.packet C))
+    (hbase : baseOf (G.base / u32 G.n) dec = G.base / u32 G.n)
+    (hlen : got.length + 1 < G.d) (j : Nat) (hj : j < G.n) (hnot : j ∉ got) :
+    Matches C G (dec.decode C (G.packet C j)).st ∧
+    held (G.base / u32 G.n) (dec.decode C (G.packet C j)).st = (got ++ [j]).map (G.packet C) ∧
+    (dec.decode C (G.packet C j)).st.newest = G.base / u32 G.n ∧
+    baseOf (G.base / u32 G.n) (dec.decode C (G.packet C j)).st = G.base / u32 G.n ∧
+    (dec.decode C (G.packet C j)).recovered = [] := by
+  rw [decode_genuine_eq hG dec hM j hj]
+  have hM' := hM.sampled (G.packet C j)
+  obtain ⟨h1, _, h3⟩ := place_new hG (sampled dec (G.packet C j)) hM'.n got hb hset j hj hnot
+  have hnw : newestOf G.n (G.base / u32 G.n) (sampled dec (G.packet C j)) = G.base / u32 G.n := by
+    have hb' : baseOf (G.base / u32 G.n) (sampled dec (G.packet C j)) = G.base / u32 G.n := hbase
+    unfold newestOf
+    rw [hb']
+    simp only [ite_self]
+  have hnf : ¬ (got.length + 1 ≥ (sampled dec (G.packet C j)).d) := by rw [hM'.d]; omega
+  rw [hnw, if_neg hnf] at h3
+  rw [if_neg hnf] at h1
+  rw [h3]
+  refine ⟨⟨hM'.d, hM'.p, hM'.n, hM'.codec, hM'.paws, hM'.tune⟩, ?_, rfl, ?_, h1⟩
+  · unfold held
+    simp only []
+    rw [lookup_discard_self, lookup_store]
+    rfl
+  · unfold baseOf
+    simp only [ite_self]
+
+theorem feed_group_aux (hC : Lawful C) (hG : G.WF) :
+    ∀ (rest pre : List Nat) (st : Decoder) (acc : List Bytes), rest ≠ [] →
+      (pre ++ rest).Pairwise (· ≠ ·) → (∀ i ∈ pre ++ rest, i < G.n) → (pre ++ rest).length = G.d →
+      Matches C G st → held (G.base / u32 G.n) st = pre.map (G.packet C) →
+      baseOf (G.base / u32 G.n) st = G.base / u32 G.n →
+      ((rest.map (G.packet C)).foldl (feedStep C) (st, acc)).2
+        = acc ++ (List.range G.d).filterMap
+            (fun k => if k ∈ pre ++ rest then none else some (pad G.maxLen (G.bodies.getD k []))) := by
+  intro rest
+  induction rest with
+  | nil => intro _ _ _ h; exact absurd rfl h
+  | cons j tl ih =>
+    intro pre st acc _ hnd hb hlen hM hset hbase
+    have hpw := List.pairwise_append.1 hnd
+    have hjn : j ∉ pre := fun h => hpw.2.2 j h j (List.mem_cons_self ..) rfl
+    have hbpre : ∀ i ∈ pre, i < G.n := fun i hi => hb i (List.mem_append_left _ hi)
+    have hj : j < G.n := hb j (List.mem_append_right _ (List.mem_cons_self ..))
+    cases tl with
+    | nil =>
+      have hl : pre.length + 1 = G.d := by
+        simpa only [List.length_append, List.length_singleton] using hlen
+      simp only [List.map_cons, List.map_nil, List.foldl_cons, List.foldl_nil, feedStep]
+      rw [(decode_completes hC hG st hM pre hpw.1 hbpre hset hl j hj hjn).1]
+    | cons j' tl' =>
+      have hl : pre.length + 1 < G.d := by
+        simp only [List.length_append, List.length_cons] at hlen; omega
+      obtain ⟨s1, s2, _, s4, s5⟩ := decode_anchored_step hG st hM pre hbpre hset hbase hl j hj hjn
+      have e : (pre ++ [j]) ++ (j' :: tl') = pre ++ j :: j' :: tl' := by simp
+      have := ih (pre ++ [j]) (st.decode C (G.packet C j)).st acc (List.cons_ne_nil _ _)
+        (by rw [e]; exact hnd) (by rw [e]; exact hb) (by rw [e]; exact hlen) s1 s2 s4
+      rw [e] at this
+      rw [List.map_cons, List.foldl_cons]
+      simp only [feedStep, s5, List.append_nil]
+      exact this
+
+/-- **Regression for finding D13.**  A fresh decoder fed ANY `d` distinct packets of a genuine
+    group — wherever the group lies in the id space, ids ≥ 2^31 included — returns exactly the
+    zero-padded bodies of the absent data packets. -/
+theorem fresh_decoder_anywhere (hC : Lawful C) (hG : G.WF) (dec : Decoder)
+    (hnew : Decoder.new C G.d G.p = some dec)
+    (idxs : List Nat) (hnd : idxs.Pairwise (· ≠ ·)) (hb : ∀ i ∈ idxs, i < G.n)
+    (hlen : idxs.length = G.d) :
+    (feed C dec (idxs.map (G.packet C))).2
+      = (List.range G.d).filterMap
+          (fun k => if k ∈ idxs then none else some (pad G.maxLen (G.bodies.getD k []))) := by
+  have hne : idxs ≠ [] := by
+    intro h; rw [h] at hlen; have := hG.d_pos; simp at hlen; omega
+  unfold Decoder.new at hnew
+  split at hnew
+  · cases hnew
+  · cases hnew
+    have := feed_group_aux hC hG idxs [] _ [] hne hnd hb hlen
+      (⟨rfl, rfl, rfl, rfl, rfl, rfl⟩ : Matches C G
+        { d := G.d, p := G.p, n := G.d + G.p, paws := pawsOf (G.d + G.p), newest := 0,
+          shouldTune := false, tune := Tune.init, sets := [], codec := C G.d G.p }) rfl rfl
+    unfold feed
+    simpa only [List.nil_append] using this
+
+theorem fresh_decoder_anywhere_trim (hC : Lawful C) (hG : G.WF) (dec : Decoder)
+    (hnew : Decoder.new C G.d G.p = some dec)
+    (idxs : List Nat) (hnd : idxs.Pairwise (· ≠ ·)) (hb : ∀ i ∈ idxs, i < G.n)
+    (hlen : idxs.length = G.d) :
+    ((feed C dec (idxs.map (G.packet C))).2).map trim
+      = (List.range G.d).filterMap
+          (fun k => if k ∈ idxs then none else some (some (G.payloads.getD k []))) := by
+  rw [fresh_decoder_anywhere hC hG dec hnew idxs hnd hb hlen, map_trim_recovered hG]
+
 end Sound
 
 /-! ## the hypotheses are satisfiable: a concrete group -/
@@ -1123,6 +1305,22 @@ example (C : CodecNew) (dec : Decoder) (h : Decoder.new C 2 1 = some dec) :
   rw [hd, hp]
   simp only [List.mem_cons, List.mem_nil_iff, or_false] at hq
   rcases hq with rfl | rfl | rfl <;> exact (exGenuine C _ (by decide)).ratio
+
+-- regression D13: the same group at ids 3000000000 … 3000000002 (≥ 2^31), fresh decoder
+def exHigh : Group := { d := 2, p := 1, base := 3000000000, payloads := [[1, 2, 3], [4]] }
+
+theorem exHigh_wf : exHigh.WF :=
+  ⟨by decide, by decide, by decide, by decide, by decide, by decide, by decide⟩
+
+example (C : CodecNew) (hC : Lawful C) (dec : Decoder) (h : Decoder.new C 2 1 = some dec) :
+    (feed C dec ([2, 1].map (exHigh.packet C))).2 = [[5, 0, 1, 2, 3]] := by
+  rw [fresh_decoder_anywhere hC exHigh_wf dec h [2, 1] (by decide) (by decide) rfl]
+  decide
+
+example (C : CodecNew) (hC : Lawful C) (dec : Decoder) (h : Decoder.new C 2 1 = some dec) :
+    ((feed C dec ([2, 1].map (exHigh.packet C))).2).map trim = [some [1, 2, 3]] := by
+  rw [fresh_decoder_anywhere_trim hC exHigh_wf dec h [2, 1] (by decide) (by decide) rfl]
+  decide
 
 end Example
 
